@@ -19,15 +19,19 @@ Variable split : bytes -> list bytes.
 
 Inductive event :=
 | Acquire (i : nat)      (* sender i locks writeMux and starts codec.Write on its next payload *)
-| WriteChunk (i : nat)   (* one conn.Write call of the holder *)
-| Release (i : nat).     (* codec.Write returned; writeMux.Unlock() *)
+| WriteChunk (i : nat)   (* one conn.Write call of the holder completes *)
+| Release (i : nat)      (* codec.Write returned nil; writeMux.Unlock() *)
+| WriteFail (i n : nat). (* a conn.Write of the holder fails (write deadline from ctx, closed
+                            connection) after n bytes of the chunk: codec.Write returns the error,
+                            Send unlocks -- the frame stays torn on the wire *)
 
 Record state := {
   queue : nat -> list bytes;          (* payloads sender i still has to Send, in its program order *)
   holder : option (nat * list bytes); (* who holds writeMux and the conn.Write calls still to do *)
   nseq : Z;                           (* Full.wSeqNo *)
   stream : bytes;                     (* bytes written to the connection so far *)
-  log : list (nat * bytes);           (* (sender, payload) of every successful codec.Write, in lock order *)
+  log : list (nat * bytes);           (* (sender, payload) of every codec.Write that reached the connection, in lock order *)
+  intact : option nat;                (* None: no conn.Write has failed so far; Some n: the first failure tore frame number n of the log *)
 }.
 
 Definition upd (q : nat -> list bytes) (i : nat) (v : list bytes) : nat -> list bytes :=
@@ -40,10 +44,11 @@ Definition step (st : state) (e : event) : option state :=
     | None, p :: t =>
       match write_c crc c (nseq st) (rnd (nseq st)) p with
       | Ok f => Some {| queue := upd (queue st) i t; holder := Some (i, split f); nseq := nseq st + 1;
-                        stream := stream st; log := log st ++ [(i, p)] |}
-      | _ =>    (* Write returned an error before touching the connection or the counter *)
-        Some {| queue := upd (queue st) i t; holder := Some (i, []); nseq := nseq st;
-                stream := stream st; log := log st |}
+                        stream := stream st; log := log st ++ [(i, p)]; intact := intact st |}
+      | _ =>    (* Write returns an error before touching the connection or the frame counter:
+                   lock and unlock with no effect on the wire *)
+        Some {| queue := upd (queue st) i t; holder := None; nseq := nseq st;
+                stream := stream st; log := log st; intact := intact st |}
       end
     | _, _ => None
     end
@@ -52,7 +57,7 @@ Definition step (st : state) (e : event) : option state :=
     | Some (j, ch :: rest) =>
       if Nat.eqb i j
       then Some {| queue := queue st; holder := Some (j, rest); nseq := nseq st;
-                   stream := stream st ++ ch; log := log st |}
+                   stream := stream st ++ ch; log := log st; intact := intact st |}
       else None
     | _ => None
     end
@@ -60,7 +65,18 @@ Definition step (st : state) (e : event) : option state :=
     match holder st with
     | Some (j, []) =>
       if Nat.eqb i j
-      then Some {| queue := queue st; holder := None; nseq := nseq st; stream := stream st; log := log st |}
+      then Some {| queue := queue st; holder := None; nseq := nseq st; stream := stream st;
+                   log := log st; intact := intact st |}
+      else None
+    | _ => None
+    end
+  | WriteFail i n =>
+    match holder st with
+    | Some (j, ch :: rest) =>
+      if Nat.eqb i j
+      then Some {| queue := queue st; holder := None; nseq := nseq st;
+                   stream := stream st ++ firstn n ch; log := log st;
+                   intact := match intact st with None => Some (pred (length (log st))) | s => s end |}
       else None
     | _ => None
     end
@@ -73,7 +89,7 @@ Fixpoint run (st : state) (es : list event) : option state :=
   end.
 
 Definition init (q : nat -> list bytes) (seq : Z) : state :=
-  {| queue := q; holder := None; nseq := seq; stream := []; log := [] |}.
+  {| queue := q; holder := None; nseq := seq; stream := []; log := []; intact := None |}.
 
 (* the payloads of sender i in a log *)
 Definition sent_by (i : nat) (l : list (nat * bytes)) : list bytes :=
